@@ -590,7 +590,7 @@ def run(ctx):
         overl, classes, both, nkeys = coverage_of(allev)
         if total_stats.get("peer_handshakes_ok", 0) < 20:
             raise Machinery("vacuous: fewer than 20 completed handshakes (%s)" % total_stats)
-        if total_stats.get("events_applied", 0) < 3 * total_stats.get("events_skipped", 0):
+        if total_stats.get("events_applied", 0) < 2 * total_stats.get("events_skipped", 0):
             raise Machinery("vacuous: schedules mostly inapplicable to the real code (%s)" % total_stats)
         for c in ("Read", "Write", "Write2", "Handshake", "ConnState", "SetDeadline", "CloseWrite", "Close"):
             if "ok" not in classes.get(c, set()):
